@@ -49,4 +49,172 @@ theorem C11_nil_collision_counterexample :
 example : KeySafe ["ab".toList, "c".toList] := by
   intro p hp; simp at hp; rcases hp with h | h <;> subst h <;> decide
 
+
+/-! ## `GetIdentityFieldValuesMap` (schema/utils.go): which parents enter the identity map -/
+
+/-- the same element (address) always carries the same key — true of any Go slice -/
+def AddrFun (rows : List IdRow) : Prop :=
+  ∀ r r', r ∈ rows → r' ∈ rows → r.addr = r'.addr → r.key = r'.key
+
+/-- NONE MISSING (identity map): every parent whose key tuple has AT LEAST ONE non-zero component — in particular
+    a composite key with some zero-valued components — is registered under its key string. -/
+theorem C11_identity_partial_zero_kept (rows : List IdRow) (hf : AddrFun rows) (r : IdRow) (hr : r ∈ rows)
+    (hz : allZero r.key = false) : r.addr ∈ (identitySlice rows).lookup r.keyStr := by
+  have hgood : IdGood rows (rows.foldl idStep ⟨[], IdMap.empty⟩) :=
+    foldl_idStep_inv (IdGood rows) rows (fun st r0 hr0 h => idGood_step rows hf st r0 hr0 h) rows _
+      (fun _ h => h) (by intro r _ hl; cases hl)
+  exact hgood r hr (foldl_loaded_all rows _ r hr) hz
+
+/-- NONE FOREIGN (identity map): whatever is registered under a key string is an element of the slice whose key is
+    not entirely zero and renders to that string; all-zero (NULL / unset) keys are registered nowhere. -/
+theorem C11_identity_only_nonzero (rows : List IdRow) (s : List Char) (a : Nat)
+    (h : a ∈ (identitySlice rows).lookup s) :
+    ∃ r ∈ rows, r.addr = a ∧ allZero r.key = false ∧ r.keyStr = s := by
+  have hs : IdSound rows (rows.foldl idStep ⟨[], IdMap.empty⟩) :=
+    foldl_idStep_inv (IdSound rows) rows (fun st r0 hr0 h => idSound_step rows st r0 hr0 h) rows _
+      (fun _ h => h) (by intro s a ha; simp [IdMap.lookup, IdMap.empty] at ha)
+  exact hs s a h
+
+/-- an element all of whose occurrences have an entirely zero key is attached nowhere (NULL fk attaches nowhere) -/
+theorem C11_identity_all_zero_skipped (rows : List IdRow) (a : Nat)
+    (hz : ∀ r ∈ rows, r.addr = a → allZero r.key = true) (s : List Char) :
+    a ∉ (identitySlice rows).lookup s := by
+  intro h
+  obtain ⟨r, hr, ha, hnz, _⟩ := C11_identity_only_nonzero rows s a h
+  rw [hz r hr ha] at hnz; cases hnz
+
+/-- the IN-list (`results`) holds exactly one value tuple per registered key string, in the same order, and each
+    tuple is the key of some not-all-zero element -/
+theorem C11_identity_values (rows : List IdRow) :
+    (identitySlice rows).values.map toStringKey = (identitySlice rows).groups.map (·.1) ∧
+    ∀ v ∈ (identitySlice rows).values, ∃ r ∈ rows, r.vals = v ∧ allZero r.key = false := by
+  have hv : IdVals rows (rows.foldl idStep ⟨[], IdMap.empty⟩) :=
+    foldl_idStep_inv (IdVals rows) rows (fun st r0 hr0 h => idVals_step rows st r0 hr0 h) rows _
+      (fun _ h => h) ⟨rfl, by intro v hv; simp [IdMap.empty] at hv⟩
+  exact hv
+
+/-- single-struct path: registered iff some component is non-zero -/
+theorem C11_identity_struct (r : IdRow) :
+    (r.addr ∈ (identityStruct r).lookup r.keyStr ↔ allZero r.key = false) ∧
+    (allZero r.key = false → (identityStruct r).values = [r.vals]) := by
+  unfold identityStruct
+  cases hz : allZero r.key <;> simp [IdMap.lookup, IdMap.empty]
+
+/-- concrete shape of the rule: (0, "x") — one zero component — is kept; (0, "") is skipped -/
+theorem C11_partial_zero_example :
+    (identitySlice [⟨1, [⟨.int 0, true⟩, ⟨.str "x".toList, false⟩]⟩, ⟨2, [⟨.int 0, true⟩, ⟨.str [], true⟩]⟩]).groups
+      = [("nil_x".toList, [1])] := by
+  decide
+
+/-! ## preload over abstract rows: none missing, none foreign -/
+
+/-- NONE MISSING: a child whose fk tuple equals the key tuple of a parent with a not-all-zero key is attached to that
+    parent, provided no OTHER key tuple among the parents renders to the same key string (the negation of finding F6). -/
+theorem C11_preload_none_missing (parents : List IdRow) (hf : AddrFun parents) (children : List KChild)
+    (r : IdRow) (hr : r ∈ parents) (hz : allZero r.key = false)
+    (hinj : ∀ r' ∈ parents, r'.keyStr = r.keyStr → r'.vals = r.vals)
+    (c : KChild) (hc : c ∈ children) (hfk : c.fk = r.vals) (hnn : KeyVal.nil ∉ c.fk) :
+    c.id ∈ preloadDirect parents children r.addr := by
+  have hk := C11_identity_partial_zero_kept parents hf r hr hz
+  obtain ⟨hal, hvs⟩ := C11_identity_values parents
+  have hin : r.vals ∈ (identitySlice parents).values := by
+    have hs := lookup_mem_groups _ _ _ hk
+    rw [← hal] at hs
+    obtain ⟨v, hv, hvk⟩ := List.mem_map.mp hs
+    obtain ⟨r', hr', hrv, _⟩ := hvs v hv
+    have : r'.vals = r.vals := hinj r' hr' (by unfold IdRow.keyStr; rw [hrv]; exact hvk)
+    rw [← this, hrv]; exact hv
+  unfold preloadDirect attachedTo fetchIn
+  apply List.mem_map.mpr
+  refine ⟨c, ?_, rfl⟩
+  simp only [List.mem_filter, List.contains_iff_mem, Bool.and_eq_true, Bool.not_eq_true']
+  refine ⟨⟨hc, ?_, ?_⟩, ?_⟩
+  · simpa using hnn
+  · rw [hfk]; exact hin
+  · rw [hfk]; exact hk
+
+/-- NONE FOREIGN: every child attached to the element at address `a` was fetched for, and renders to the key string
+    of, an occurrence of `a` with a not-all-zero key; where the key string is injective (`C11_key_injective`) that
+    means fk tuple = key tuple. -/
+theorem C11_preload_none_foreign (parents : List IdRow) (children : List KChild) (a id : Nat)
+    (h : id ∈ preloadDirect parents children a) :
+    ∃ c ∈ children, c.id = id ∧ ∃ r ∈ parents, r.addr = a ∧ allZero r.key = false ∧ toStringKey c.fk = r.keyStr := by
+  unfold preloadDirect attachedTo fetchIn at h
+  obtain ⟨c, hc, hid⟩ := List.mem_map.mp h
+  simp only [List.mem_filter, List.contains_iff_mem] at hc
+  obtain ⟨r, hr, ha, hz, hs⟩ := C11_identity_only_nonzero parents _ a hc.2
+  exact ⟨c, hc.1.1, hid, r, hr, ha, hz, hs.symm⟩
+
+/-! ## letter case: string components are copied verbatim -/
+
+/-- single-column string (and []byte) keys: the key string IS the value, so keys differing only in letter case stay
+    distinct -/
+theorem C11_key_string_verbatim (a b : List Char) :
+    (toStringKey [.str a] = a) ∧ (toStringKey [.bytes a] = a) ∧ (toStringKey [.str a] = toStringKey [.str b] → a = b) := by
+  simp [toStringKey, joinKey, KeyVal.render]
+
+theorem C11_key_case_example : toStringKey [.str "ab".toList] ≠ toStringKey [.str "AB".toList] := by decide
+
+/-! ## association joins: the ON clause always carries the joined model's own scope -/
+
+/-- the soft-delete (query-clause) filter of the joined model is part of the ON clause whether or not the caller
+    supplied an ON condition; so are all reference equalities and the caller's conditions -/
+theorem C11_join_on_complete (refs : List JoinRef) (qc un : Nat) :
+    (∀ i, i < qc → OnAtom.scope i ∈ joinOnAtoms refs qc un) ∧
+    (∀ i, i < un → OnAtom.user i ∈ joinOnAtoms refs qc un) ∧
+    (∀ r ∈ refs, refAtom r ∈ joinOnAtoms refs qc un) := by
+  unfold joinOnAtoms
+  refine ⟨?_, ?_, ?_⟩
+  · intro i hi
+    simp only [List.mem_append, List.mem_map, List.mem_range]
+    exact Or.inl (Or.inr ⟨i, hi, rfl⟩)
+  · intro i hi
+    simp only [List.mem_append, List.mem_map, List.mem_range]
+    exact Or.inr ⟨i, hi, rfl⟩
+  · intro r hr
+    simp only [List.mem_append, List.mem_map]
+    exact Or.inl (Or.inl ⟨r, hr, rfl⟩)
+
+/-- non-vacuity of the preload theorems: a two-parent, composite-key instance with a zero component -/
+example : preloadDirect
+    [⟨0, [⟨.int 0, true⟩, ⟨.str "x".toList, false⟩]⟩, ⟨1, [⟨.int 2, false⟩, ⟨.str "x".toList, false⟩]⟩]
+    [⟨7, [.int 0, .str "x".toList]⟩, ⟨8, [.int 2, .str "x".toList]⟩] 0 = [7] := by decide
+
+
+/-! ## finding F6b: nested joins + Preload below them on a single-struct destination -/
+
+/-- FINDING F6b (counterexample, kernel-checked): destination `First(&order)`, `Joins("Parent")`,
+    `Joins("Parent.Parent")`, `Preload("Parent.Parent.Lines")`, and the order has no parent: the walk dereferences the
+    nil `Parent` pointer. -/
+theorem C11_entry_walk_counterexample :
+    entryWalk (.obj [("Parent".toList, .nilp)]) ["Parent".toList, "Parent".toList] = false := by
+  decide
+
+/-- … outside the pattern (no joined relation that is followed by a further joined hop is NULL) the walk completes -/
+theorem C11_entry_walk_partial (v : JVal) (hops : List (List Char))
+    (h : ∀ k, k < hops.length → ∀ w, jreach v (hops.take k) = some w → w.isNil = false) :
+    entryWalk v hops = true := by
+  induction hops generalizing v with
+  | nil => rfl
+  | cons f rest ih =>
+    cases v with
+    | nilp =>
+      have := h 0 (by simp) .nilp (by simp [jreach])
+      simp [JVal.isNil] at this
+    | obj fs =>
+      simp only [entryWalk]
+      cases hf : jfield fs f with
+      | none => rfl
+      | some v' =>
+        apply ih
+        intro k hk w hw
+        apply h (k + 1) (by simpa using hk) w
+        simp only [List.take_succ_cons, jreach, hf]
+        exact hw
+
+/-- in particular one joined hop never fails (the destination itself is not nil) -/
+theorem C11_entry_walk_one_hop (fs : List (List Char × JVal)) (f : List Char) : entryWalk (.obj fs) [f] = true := by
+  simp only [entryWalk]
+  cases jfield fs f <;> simp
+
 end Gorm
